@@ -24,7 +24,8 @@ SameText(a, b)  == a = b                    \* the macro's identity: string comp
 
 \* ---- the pattern alphabet (property C16 + the interaction symbols of DESIGN 6)
 PlainSyms == {"id", "mut", "ref", "at", "raw", "fnname", "fnname_", "rawfn", "gnext", "gprev", "ugnext", "ugprev"}
-DestrSyms == {"wild", "tup2", "tup0", "ts1", "ts1w", "st1", "sts", "refp", "tsu", "nest2", "liftfn", "liftfn_"}
+\* (tsmut / stref / tsat: a single inner binding that carries a binding mode or a subpattern: `N(mut q)`, `S { v: ref q }`, `N(q @ _)`)
+DestrSyms == {"wild", "tup2", "tup0", "ts1", "ts1w", "st1", "sts", "refp", "tsu", "nest2", "liftfn", "liftfn_", "tsmut", "stref", "tsat"}
 AllSyms   == PlainSyms \cup DestrSyms
 
 RawKw == <<"type", "match", "loop", "move", "async">>
@@ -44,7 +45,7 @@ Binds(s, i, f) ==
     [] s \in {"wild", "tup0"} -> << >>
     [] s = "tup2"    -> << Nm("x" \o Idx(i)), Nm("y" \o Idx(i)) >>
     [] s = "nest2"   -> << Nm("x" \o Idx(i)), Nm("y" \o Idx(i)) >>
-    [] s \in {"ts1", "ts1w", "st1", "refp"} -> << Nm("q" \o Idx(i)) >>
+    [] s \in {"ts1", "ts1w", "st1", "refp", "tsmut", "stref", "tsat"} -> << Nm("q" \o Idx(i)) >>
     [] s = "sts"     -> << Nm("v") >>
     [] s = "tsu"     -> << UNm("_u" \o Idx(i)) >>
     [] s = "liftfn"  -> << f >>
@@ -68,6 +69,9 @@ PText(s, i, f) ==
     [] s = "sts"     -> "S { v }: S"
     [] s = "refp"    -> "&" \o NText(b[1]) \o ": &i32"
     [] s = "tsu"     -> "N(" \o NText(b[1]) \o "): N"
+    [] s = "tsmut"   -> "N(mut " \o NText(b[1]) \o "): N"
+    [] s = "stref"   -> "S { v: ref " \o NText(b[1]) \o " }: S"
+    [] s = "tsat"    -> "N(" \o NText(b[1]) \o " @ _): N"
     [] s = "liftfn"  -> "N(" \o NText(b[1]) \o "): N"
     [] s = "liftfn_" -> "N(" \o NText(b[1]) \o "): N"
 
@@ -79,7 +83,7 @@ Arity(s) == CASE s \in {"tup2", "nest2"} -> 2 [] s = "tup0" -> 0 [] OTHER -> 1
 BExpr(s, i, f) ==
   LET b == Binds(s, i, f) IN
   CASE s \in {"id", "mut", "raw", "fnname", "fnname_", "rawfn", "gnext", "gprev", "ugnext", "ugprev"} -> << NText(b[1]) >>
-    [] s = "ref"  -> << "*" \o NText(b[1]) >>
+    [] s \in {"ref", "stref"}  -> << "*" \o NText(b[1]) >>
     [] s = "at"   -> << NText(b[1]) \o ".0" >>
     [] s \in {"wild"} -> << "0" >>
     [] s = "tup0" -> << >>
@@ -90,9 +94,9 @@ VExpr(s, v) ==
   CASE s \in {"tup2"}  -> "(" \o ToString(v) \o ", " \o ToString(v + 1) \o ")"
     [] s = "nest2"     -> "N2(" \o ToString(v) \o ", " \o ToString(v + 1) \o ")"
     [] s = "tup0"      -> "()"
-    [] s \in {"at", "ts1", "tsu", "liftfn", "liftfn_"} -> "N(" \o ToString(v) \o ")"
+    [] s \in {"at", "ts1", "tsu", "liftfn", "liftfn_", "tsmut", "tsat"} -> "N(" \o ToString(v) \o ")"
     [] s = "ts1w"      -> "N2(" \o ToString(v) \o ", 0)"
-    [] s \in {"st1", "sts"} -> "S { v: " \o ToString(v) \o " }"
+    [] s \in {"st1", "sts", "stref"} -> "S { v: " \o ToString(v) \o " }"
     [] s = "refp"      -> "&" \o ToString(v)
     [] OTHER           -> ToString(v)
 \* what the logging body returns when called with leaf values numbered from 1 in declared order
